@@ -99,11 +99,13 @@ def run_ineq(chk, case, rs, frags):
 
 def run_eq(chk, case):
     ty = case["type"]
-    builders = {"state": lambda v, **kw: coords.state_from_h(SYS, coords.rvec(v), **kw),
-                "povm": lambda v, **kw: coords.povm_from_h(SYS, [coords.rvec(y) for y in v], **kw),
-                "gate": lambda v, **kw: coords.gate_from_h(SYS, coords.rmat(v), **kw),
-                "mprocess": lambda v, **kw: coords.mprocess_from_h(SYS, [coords.rmat(m) for m in v], **kw)}
-    tag = ty + (":m%d" % len(case["v"]) if ty in ("povm", "mprocess") else "")
+    # dimension of the system: 2 = one qubit, 3 = one qutrit, 4 = two qubits
+    sys_ = {2: (2,), 3: (3,), 4: (2, 2)}[case.get("d", 2)]
+    builders = {"state": lambda v, **kw: coords.state_from_h(sys_, coords.rvec(v), **kw),
+                "povm": lambda v, **kw: coords.povm_from_h(sys_, [coords.rvec(y) for y in v], **kw),
+                "gate": lambda v, **kw: coords.gate_from_h(sys_, coords.rmat(v), **kw),
+                "mprocess": lambda v, **kw: coords.mprocess_from_h(sys_, [coords.rmat(m) for m in v], **kw)}
+    tag = ty + (":m%d" % len(case["v"]) if ty in ("povm", "mprocess") else "") + ("" if case.get("d", 2) == 2 else ":d%d" % case["d"])
     obj = builders[ty](case["v"])
     want = builders[ty](case["proj"])
     chk.count(1, (tag, str(case["v"])[:80]))
